@@ -83,7 +83,7 @@ PROPS = {
                 rule="convex families and benchmarks, boxes with active bounds at start and optimum, 4 FD modes, eps / rel_step settings; non-trivial = a bound active at the returned point",
                 explanation="partial: C16_no_bound_error from C02; stencil feasibility and accuracy are properties of SciPy's routine on a floating-point trajectory: explored",
                 assumptions=COMMON_ASSUME),
-    "C17": dict(monitor=D2, level="proof", corr=["driver"],
+    "C17": dict(monitor=D2, level="proof", corr=["driver:scaler"],
                 rule="pairs of complete runs (scaler s vs explicitly scaled objective) compared bit-for-bit, s=10^u u in [-3,3] and the packaged scaler; non-trivial = >=2 iterations",
                 explanation="theorem C17_scaler_equiv on the driver model; bit-exact driver correspondence with scalers",
                 assumptions=COMMON_ASSUME),
